@@ -1091,7 +1091,7 @@ class Value(Term):
             want_inline_parens
             and isinstance(self.value, (int, float))
             and (not isinstance(self.value, bool))
-            and (self.value < 0)
+            and self.value.__repr__().startswith("-")  # value < 0 misses -0.0, which also prints with a sign
         ):
             # a negative constant is a unary minus in source form: -5 ** 2 reads as -(5 ** 2)
             return PythonText("(" + self.value.__repr__() + ")", is_in_parens=True)
